@@ -203,6 +203,23 @@ PROPS["C16"] = dict(
     assumptions=["SetCap is excluded from the capacity theorem (lowering a cap below the amount already granted breaks it by design)"],
 )
 
+PROPS["C15"] = dict(
+    n_quick=640, n_thorough=40000, shards=16, coq_dirs=["C15"], no_shrink=True, confirm_runs=2, go_build_flags=["-race"],
+    rule="cases: (3/4) gated histories: Workers in {1,2,3}, Depth in {-1,0,1,2,5}, 1..2*Workers+4 tasks or enough to fill workers, task "
+         "channel, backlog and input channel so that Submit blocks; 1/8 of the tasks panic; 2-14 environment moves (raise the submitter's "
+         "allowed mark, release a task - mostly the oldest, sometimes any, also before it started -, request Shutdown), then everything "
+         "allowed and released and Shutdown; after every move the harness waits until nothing changes for 4 ms and the observation "
+         "(Submit calls returned, started, finished, handler reports, Shutdown returned) is compared with the model run to quiescence; a "
+         "disagreement counts only if it repeats on two re-runs; (1/4) free-running: 1-8 submitters x 1-40 tasks of 0-1 ms, Workers "
+         "{1,2,3,8}, Depth {-1,0,1,2,5,100}, panics every 3rd/7th task, GOMAXPROCS {1,2,4,16}, race detector on. non-trivial = every "
+         "gated or free case; distinct = distinct case text",
+    trivial_class=r"(^bad$|^exn$)",
+    trusted_base=["Go channels, select and goroutine scheduling are modelled as an interleaving transition system with buffered-channel semantics (a waiting receiver counts as buffer room)",
+                  "quiescence is observed by polling (4 ms without change); the model's quiescent state is computed with a fixed priority among enabled goroutines",
+                  "free-running cases compare only the oracle's flags (exactly once, concurrency bound, order for one worker, panics, Shutdown after all)"],
+    assumptions=["Shutdown is called once, after every Submit has returned (the package documents no other use)"],
+)
+
 # properties not (yet) claimed, with the reason; an entry is dropped automatically once the property is in PROPS
 NOT_APPLICABLE = {
     "C%02d" % i: "not yet built in this development (model and correspondence harness pending); see DESIGN.md section 22"
@@ -210,6 +227,18 @@ NOT_APPLICABLE = {
 }
 
 MANIFEST_TEXT = {
+    "C15": dict(
+        level_text="Proof: over every schedule of the interleaving model (any Workers >= 1, any Depth incl. 0 and negative, any input-channel "
+                   "capacity, any number of submitters): the multiset of tasks spread over programs, input channel, dispatcher's hand, "
+                   "backlog, task channel, running workers and finished list is conserved; received = processed + in flight; the dispatcher "
+                   "never indexes an empty backlog; once Shutdown has returned every submitted task has finished exactly once and nothing is "
+                   "left anywhere; never more than Workers tasks run; tasks start in the order they entered the input channel (submission "
+                   "order for one worker) -- Coq theorems. The model, run to quiescence after each environment move, is compared with the "
+                   "real queue under gated tasks (which Submit calls returned, which tasks started/finished/were reported, whether "
+                   "Shutdown returned); free-running runs are checked by an oracle over event stamps under the race detector.",
+        level_note="Partial: the Go scheduler and channel runtime are modelled, not verified; progress (Shutdown eventually returns under a "
+                   "fair scheduler) is sampled by deadlines, not proved; the recovery handler is modelled as a per-task report.",
+        technique="Coq proof (invariants of an interleaving transition system by induction over schedules) on a hand-written Gallina model + quiescence-based differential correspondence check"),
     "C16": dict(
         level_text="Proof: in every reachable state of the limiter tree (any history of Use/New/Close/tick without SetCap) 0 <= used <= max(0, "
                    "capacity) for every limiter; a grant adds its amount to the limiter and to each ancestor and to nothing else (so a child's "
